@@ -79,16 +79,38 @@ pub fn main(seed: u64, part: &str, n: u64) -> i32 {
         }
         "threads" => {
             // plain threads, no baton: Miri's scheduler and data-race detector decide
-            let progs: Vec<String> = (0..n as usize)
+            // hand-written programs that touch every builtin and every heap-related opcode, so that any
+            // unsynchronised process-wide state used inside a single instruction is exercised by all
+            // threads, followed by generated ones
+            let coverage: Vec<String> = [
+                "stel s = \"hallo\"; stel r = [s[0], s[1], s[-1], \"日本\"[1]]; s[0] = \"J\"; [r, s, lengte(s), lengte(r)]",
+                "stel a = [1, \"a\", 2.5]; a[0] = [a[1], a[2]]; functie f(x) { [x, string(7), type(x)] }; [f(a), f(1.5), f(\"z\")]",
+                // no print here: stdout's lock would order the threads (a happens-before edge hides races)
+                "[int(\"12\"), float(\"2.5\"), bool(\"\"), string(nee), int(2.9), float(3), type([1]), string(2.5)]",
+                "functie g(n) { als n < 1 { antwoord [n]; }; [n, g(n - 1)] }; stel x = 1.5 + 2.25; stel y = -x; [g(3), x * y, x / 2.0, 7 % 3, x > y, \"a\" < \"b\"]",
+                "stel i = 0; stel k = []; zolang i < 3 { i = i + 1; k = [k, string(i)]; als i == 2 { volgende; }; }; k",
+                "lengte(5)",
+                "[1, 2][7]",
+                "onbekend",
+            ]
+            .iter()
+            .map(|s| s.to_string())
+            .collect();
+            let progs: Vec<String> = coverage
+                .into_iter()
+                .chain((0..n as usize)
                 .map(|i| {
                     let mut rng = Rng::new(mix(seed, 0x3143, i as u64));
                     let mut cfg = gen_program::Swarm::draw(&mut rng, true);
                     cfg.stmts = 3 + rng.usize(4);
                     cfg.loop_max = 2;
+                    cfg.w_print = 0;
                     gen_program::Gen::new(&mut rng, cfg).program().src
-                })
+                }))
                 .collect();
-            let expect: Vec<String> = progs.iter().map(|p| engine_purity::plain_digest(p)).collect();
+            // No hooks here (main does not install them for this part): the harness's own locks would
+            // order the threads and hide a race from Miri's detector.
+            let expect: Vec<String> = progs.iter().map(|p| bare_digest(p)).collect();
             let mut hs = Vec::new();
             for t in 0..3usize {
                 let progs = progs.clone();
@@ -97,11 +119,8 @@ pub fn main(seed: u64, part: &str, n: u64) -> i32 {
                     let mut bad = 0;
                     for k in 0..progs.len() {
                         let i = (k + t) % progs.len();
-                        let mut plan = Plan::plain();
-                        plan.budget = 3_000;
-                        let r = runner::run_eval(&progs[i], &plan, (t * 1000 + k + 1) as u64, false);
-                        let d = engine_purity::digest_of(&r.outcome, &r.out, &r.injected);
-                        if d != expect[i] && d != engine_purity::DISCARD && expect[i] != engine_purity::DISCARD {
+                        let d = bare_digest(&progs[i]);
+                        if d != expect[i] {
                             println!("thread {} program {}: {} != {}", t, i, d, expect[i]);
                             bad += 1;
                         }
@@ -120,5 +139,64 @@ pub fn main(seed: u64, part: &str, n: u64) -> i32 {
         1
     } else {
         0
+    }
+}
+
+/// Evaluate without any harness involvement and render / release the result through the public accessors.
+fn bare_digest(src: &str) -> String {
+    use nederlang::object::Type;
+    let r = std::panic::catch_unwind(|| nederlang::eval(src));
+    match r {
+        Err(_) => "panic".to_string(),
+        Ok(Err(e)) => format!("err {:?}", e),
+        Ok(Ok(v)) => {
+            let mut out = String::new();
+            let mut seen: Vec<usize> = Vec::new();
+            let mut objs: Vec<nederlang::object::Object> = Vec::new();
+            fn go(o: nederlang::object::Object, out: &mut String, seen: &mut Vec<usize>, objs: &mut Vec<nederlang::object::Object>) {
+                match o.tag() {
+                    Type::Null => out.push_str("null"),
+                    Type::Bool => out.push_str(if o.as_bool() { "ja" } else { "nee" }),
+                    Type::Int => out.push_str(&o.as_int().to_string()),
+                    Type::Function => out.push_str("fn"),
+                    Type::Float => {
+                        let a = nederlang::verif::address(o);
+                        if !seen.contains(&a) {
+                            seen.push(a);
+                            objs.push(o);
+                        }
+                        out.push_str(&format!("{:?}", o.as_f64()));
+                    }
+                    Type::String => {
+                        let a = nederlang::verif::address(o);
+                        if !seen.contains(&a) {
+                            seen.push(a);
+                            objs.push(o);
+                        }
+                        out.push_str(&format!("{:?}", o.as_str()));
+                    }
+                    Type::Array => {
+                        let a = nederlang::verif::address(o);
+                        if seen.contains(&a) {
+                            out.push_str("^");
+                            return;
+                        }
+                        seen.push(a);
+                        objs.push(o);
+                        out.push('[');
+                        for e in o.as_vec().iter() {
+                            go(*e, out, seen, objs);
+                            out.push(',');
+                        }
+                        out.push(']');
+                    }
+                }
+            }
+            go(v, &mut out, &mut seen, &mut objs);
+            for o in objs {
+                o.free();
+            }
+            format!("ok {}", out)
+        }
     }
 }
